@@ -422,8 +422,12 @@ func Prepare(spec Spec, l *Log, scenarioFn f1testing.ScenarioFn, hooks *Hooks, r
 	var sc *scenarios.Scenarios
 	if hooks != nil && hooks.Registry != nil {
 		sc = hooks.Registry
-		if sc.GetScenario(spec.Scenario) == nil {
+		if existing := sc.GetScenario(spec.Scenario); existing == nil {
 			sc.Add(&scenarios.Scenario{Name: spec.Scenario, ScenarioFn: scenarioFn})
+		} else {
+			// same registered object (its RunFn of the previous run is still set); only the setup
+			// function is pointed at this run's closure so that the monitor logs into this run's log
+			existing.ScenarioFn = scenarioFn
 		}
 	} else {
 		sc = scenarios.New().Add(&scenarios.Scenario{Name: spec.Scenario, ScenarioFn: scenarioFn})
